@@ -7,7 +7,7 @@ BUILT = {
  "C01": dict(cat="exploration", tech="deterministic simulation: seeded workload + RNG fault injection (FaultRng), byte-budget bounded liveness, real Ristretto and free-module group",
    text="Seeded simulation of prover nodes handed healthy and failing external RNG streams (all-zero, all-ones, constant, short-period, counter, stuck-after-n, replayed), across the configuration lattice (bits 1..64, aggregation 1..32, capacity > m, extension degree 1..6, boundary values, promises, seeds), each proof verified in all three modes alone and inside a batch, after a byte and a serde (bincode) round trip, and (one run in eight) after a failed proving attempt on the same transcript object; boundary inputs include identity commitments, repeated openings, special blinding factors and seeds, promises adding up to 2^64. Completeness is an identity, so sampling diverse configurations under every RNG failure mode with a byte budget for prover termination is the level that fits: it decides the RNG-quantified part of the statement, which unit tests with one healthy RNG cannot.",
    note="Trusted: FreePoint is a faithful free-module stand-in for the group (every class of run also executes on real Ristretto); sampling, not proof; zero challenge (2^-252) ignored.", ref="5/C01"),
- "C02": dict(cat="exploration", tech="deterministic simulation: hostile channel + adversarial proof crafting over a simulator-owned free-module group; Fiat-Shamir challenges tapped at the merlin seam; independent paper-form reference verifier as oracle on every verification",
+ "C02": dict(cat="exploration", tech="deterministic simulation: hostile channel + adversarial proof crafting over a simulator-owned free-module group; Fiat-Shamir challenges tapped at the merlin seam; independent paper-form reference verifier as oracle on every verification; tuned cancelling pairs resubmitted after accepted batches",
    text="Every verification a simulated verifier performs (honest, channel-faulted and adversarially crafted proofs, singly and in batches) is compared with an independent unoptimised evaluation of the published relation at the challenges the library actually drew: over the free module the verifier's residual must equal w * reference residual coefficient by coefficient (so a generator or proof element weighted differently shows up on its own coordinate), on Ristretto the verdicts must agree, shape defects must be refused. This decides 'the implemented linear combination is the published one' at sampled challenge points; it has no interleaving dimension and does not prove knowledge soundness of the protocol.",
    note="Trusted: refmodel.rs (harness's reading of the paper / RFC-0181), FreePoint as a faithful group, tapped challenges (transcript layout is C04), vector generators taken from the parameters (C11).", ref="5/C02"),
  "C04": dict(cat="fault_enumeration", tech="deterministic simulation: single-datum message faults enumerated over every transcript input position; transcript event log recorded at the merlin seam; oracle over the two recorded challenge histories",
@@ -16,7 +16,7 @@ BUILT = {
  "C05": dict(cat="fault_enumeration", tech="deterministic simulation: hostile channel applying every single-component fault (position x replacement kind) to accepted messages; verdict oracle under catch_unwind",
    text="For each sampled accepted message EVERY single-component fault is applied (each proof scalar/point x 5 replacement kinds + bit flips, round count +-1, extension tag +-1 with/without length repair, truncation/extension, each commitment x 4, each pair swap, each promise x 5, bit length x2 and /2, H and each G_k x {point, encoding, both}, context) and delivered through from_bytes and the validating constructors; the result must be an error value: never Ok, never a panic, in VerifyOnly and RecoverAndVerify — alone, in a batch before and behind an honest companion, next to its own unaltered original, and (sampled) in the first chunk of a batch of 257. Exhaustive over fault positions per message; messages sampled across the lattice with ext 4-6 and m=8 guaranteed.",
    note="Rejection required up to 2^-252; capacity changes are not alterations (C12); zero-round proofs excluded from the byte path (decoder refuses them).", ref="5/C05"),
- "C08": dict(cat="exploration", tech="deterministic simulation: adaptive multi-round adversary against the batch verifier; combination factors read from the MSM seam of the free-module group after every run",
+ "C08": dict(cat="exploration", tech="deterministic simulation: adaptive multi-round adversary against the batch verifier (cancelling pairs and triples, one member held while the other adapts, moves along public kernel directions of d1, pair positions 1..240 apart or at the edge of a full chunk); combination factors read from the MSM seam of the free-module group after every run",
    text="An adversary stronger than any real one plays 8-64 round games: after each verification run it reads the factors actually used from the verifier's final multiscalar multiplication and chooses offsets on d1[k] of two (or three) members that cancel exactly if the factors do not move, optionally touching r1/s1, permuting or resubmitting. Invariants after every submission: a batch with an invalid member is rejected, every factor is non-zero, the ratio w_i/w_j changes whenever a response scalar of i or j changed.",
    note="Factors observable only over the free module (real verifier code, stub group); accidental cancellation 2^-252.", ref="5/C08"),
  "C11": dict(cat="exploration", tech="deterministic simulation: Miri's seeded scheduler over real threads racing first use of the two lazily initialised statics (data-race detector on), seeded construction orders, fresh-process first-use orders; reference derivation as oracle",
@@ -25,7 +25,7 @@ BUILT = {
  "C12": dict(cat="exploration", tech="deterministic simulation: configuration skew between simulated prover and verifier nodes (table capacity randomised per node), equal-capacity baseline as reference",
    text="Each prover node and each verifier node draws its own capacity >= m; every message (valid or corrupted) is verified by >= 3 nodes of different capacity in all modes, alone and inside batches whose members carry different capacities; verdicts and masks must equal the equal-capacity baseline; generator (i, j) must be identical across capacities.",
    note="Baseline is the library's own equal-capacity verdict; FreePoint faithful (1 run in 4 on Ristretto).", ref="5/C12"),
- "C13": dict(cat="exploration", tech="deterministic simulation: histories of prover runs under different seeded RNG streams; nonces read as free-module coordinates (group seam) gated by self-checks; nonce ledger + reference nonce function as oracles",
+ "C13": dict(cat="exploration", tech="deterministic simulation: histories of prover runs under different seeded RNG streams, served by the generator object itself or through a zero-sized handle onto it (RNG-shape seam); nonces read as free-module coordinates (group seam) gated by self-checks; nonce ledger + reference nonce function as oracles",
    text="Histories of 12-120 prover runs over few statements (same statement re-proved under different streams, different witnesses, with/without seed, one seed shared by statements); all ext*(2*rounds+3)+2 nonces of every proof are extracted as coordinates; oracles: non-zero, pairwise distinct within a proof, RNG-derived ones never repeated across runs with different streams, seed-derived ones equal the documented keyed BLAKE2b function.",
    note="Nonces observable only over the free module; 'unpredictable' decided as freshness/distinctness + documented derivation (dependence on the witness under RNG failure is C14).", ref="5/C13"),
  "C14": dict(cat="fault_enumeration", tech="deterministic simulation: RNG fault injection (all-zero, all-ones, constant, short-period, counter, stuck, replayed) with paired prover runs served the same faulty stream; degenerate generators make two witnesses share one commitment; public-computability oracle replays the tapped transcript",
@@ -34,7 +34,7 @@ BUILT = {
  "C16": dict(cat="exploration", tech="deterministic simulation: hostile channel delivering the cross product of proof, statement and batch shapes in child processes with write-ahead run ids; allocator seam and deterministic work counter as resource oracles",
    text="Seeded hostile deliveries (extension tag 0..8/255, rounds up to 2000 and fit+-1, lengths off by 1/31/32/33, identity/undecodable/non-canonical/all-ones elements, statement shapes incl. capacity > m and shapes the constructors must refuse, batch shapes with mixed bits/ext/capacity, a member repeated across the 256 chunk limit, unequal sequence lengths, empty, honest proofs with stacked channel faults, random bytes) in all modes; oracles: no panic under catch_unwind (overflow checks on), child process exits normally (abort attributed through the write-ahead file), allocation peak (Ristretto) and scalar-point work (free module) linear in input size. Two thirds of the runs on Ristretto because dalek's backend assertions are the hazard.",
    note="Statements built through the validating constructors only; allocation bound 4 KiB per input unit + 1 MiB; wall-clock is only a watchdog.", ref="5/C16"),
- "C18": dict(cat="exploration", tech="deterministic simulation: seeded cooperative scheduler preempting real threads INSIDE library calls at the simulator-owned seams (group operations, transcript operations, RNG reads); operation-level seeded scheduler over shared parameter objects (two interleavings + repetition + injected crashes + fresh-process baseline); Miri's seeded scheduler with race detection",
+ "C18": dict(cat="exploration", tech="deterministic simulation: seeded cooperative scheduler preempting real threads INSIDE library calls at the simulator-owned seams (group operations, transcript operations, RNG reads); operation-level seeded scheduler over shared parameter objects (two interleavings + repetition + injected crashes + fresh-process baseline; every verify repeated over separately constructed parameter objects, every prove repeated through a zero-sized RNG handle); Miri's seeded scheduler with race detection",
    text="Native: 3-6 logical clients with scripts of self-contained operations over a shared pool of parameter objects; the same scripts run under two seeded interleavings, each operation is repeated, 10% of prover operations crash via an injected RNG panic and the following operations must be served unaffected; sampled operations also run first in a fresh process; an operation's result digest must be a function of its descriptor only. Cooperative threads: 2-3 OS threads share one parameter object whose capacity exceeds every aggregate and prove / verify aggregates of different sizes; each parks at every group operation, transcript operation and RNG read and the seeded scheduler decides who continues (one seed = one replayable interleaving inside library calls); every result must equal the same operation executed alone. Schedule: Miri interprets 2-3 real threads racing first use of the statics, sharing one precomputed table, and (thorough) proving/verifying concurrently, compared with a single-threaded reference.",
    note="Operation-level atomicity assumed in the native part (the shared state that exists is inside the Miri scenarios); full-protocol Miri schedules are few (2.5 min each) and thorough-only.", ref="5/C18"),
  "C03": dict(cat="exploration", tech="deterministic simulation: seeded scheduler of a verifier node decides batch membership, size and order over a duplicated/reordered message pool; refinement against the sequential reference model (one-at-a-time verification)",
